@@ -37,6 +37,10 @@ type World struct {
 
 	Net *Net
 
+	// AckDepth, when set, chooses how many momentums below the frontier a
+	// client block acknowledges (0 = frontier)
+	AckDepth func() int
+
 	restore []func()
 }
 
@@ -146,6 +150,23 @@ func (w *World) Submit(n *simnode.Node, template *nom.AccountBlock) (*nom.Accoun
 	kp := w.Keys[template.Address]
 	if kp == nil {
 		return nil, fmt.Errorf("no key for %v", template.Address)
+	}
+	if w.AckDepth != nil && template.MomentumAcknowledged.IsZero() {
+		if d := uint64(w.AckDepth()); d > 0 {
+			fr := n.Height()
+			target := uint64(1)
+			if fr > d {
+				target = fr - d
+			}
+			// never older than what the account's previous block acknowledged
+			if prev, err := n.Chain.GetFrontierAccountStore(template.Address).Frontier(); err == nil && prev != nil && prev.MomentumAcknowledged.Height > target {
+				target = prev.MomentumAcknowledged.Height
+			}
+			if m, err := n.Chain.GetFrontierMomentumStore().GetMomentumByHeight(target); err == nil && m != nil && target < fr {
+				template.MomentumAcknowledged = m.Identifier()
+				w.R.Probe("acknowledged-below-frontier")
+			}
+		}
 	}
 	tx, err := n.Sup.GenerateFromTemplate(template, kp.Signer)
 	if err != nil {
